@@ -70,6 +70,7 @@ func (m *Model) expect(sn any, v any, p Pos) any {
 				ip := p
 				ip.Kind = "item"
 				ip.InNamedArr = p.Named || p.InNamedArr
+				ip.InMapArr = !p.Named && (p.Kind == "mapval" || p.InMapArr)
 				ip.Named = false
 				out[i] = m.expect(items, e, ip)
 			} else {
